@@ -327,6 +327,12 @@ def main(argv=None):
                 broken_obligations.append({"kind": "audit", "theorem": n, "detail": "axioms " + str(a)})
             else:
                 discharged += 1
+        if args.tier == "thorough":
+            # independent re-check of the compiled property modules by the toolchain's olean checker
+            rc_lc, out_lc = sh(["lake", "env", "leanchecker"] + prop_modules(prop), cwd=LEAN, timeout=3000)
+            notes.append("leanchecker rc={}".format(rc_lc))
+            if rc_lc != 0:
+                broken_obligations.append({"kind": "leanchecker", "detail": out_lc[-800:]})
         hits = grep_forbidden()
         for h in hits:
             broken_obligations.append({"kind": "forbidden-token", "detail": h})
